@@ -77,7 +77,16 @@ func checkOnceBubble(c OnceCase) error {
 		for i := range gates {
 			gates[i] = make(chan struct{})
 		}
+		fillerCons := map[int]int{}
+		nextFiller := 1000
 		oc := syncutil.NewOnceConstructor(func(k int) string {
+			if k >= 1000 {
+				// Filler keys: constructed at once, no gate.
+				mu.Lock()
+				fillerCons[k]++
+				mu.Unlock()
+				return fmt.Sprintf("filler-%d", k)
+			}
 			mu.Lock()
 			cons[k]++
 			n := cons[k]
@@ -119,6 +128,29 @@ func checkOnceBubble(c OnceCase) error {
 					open[a.Arg] = true
 					close(gates[a.Arg])
 				}
+			case "fill":
+				// Many other distinct keys are requested and complete while
+				// slow constructions may be in flight.
+				for j := 0; j < a.Arg; j++ {
+					k := nextFiller
+					nextFiller++
+					if got := oc.Get(k); got != fmt.Sprintf("filler-%d", k) {
+						v.fail("Get(%d) returned %q", k, got)
+					}
+					if j%7 == 0 {
+						// Ask again for an earlier filler key.
+						if got := oc.Get(1000 + j/2); got != fmt.Sprintf("filler-%d", 1000+j/2) {
+							v.fail("Get(%d) returned %q", 1000+j/2, got)
+						}
+					}
+				}
+				mu.Lock()
+				for k, n := range fillerCons {
+					if n != 1 {
+						v.fail("filler key %d was constructed %d times", k, n)
+					}
+				}
+				mu.Unlock()
 			}
 			synctest.Wait()
 			mu.Lock()
@@ -172,6 +204,12 @@ func checkOnceBubble(c OnceCase) error {
 	})
 	cmu.Lock()
 	defer cmu.Unlock()
+	for _, a := range c.Script {
+		if a.Kind == "fill" && a.Arg >= 64 {
+			vp.Class("once:>=64-other-keys-completed-mid-script")
+			break
+		}
+	}
 	if concurrentArrivals {
 		vp.Class("once:>=2-callers-arrived-during-construction")
 		vp.NonTrivialStr("c17.once-bubble", fmt.Sprintf("%+v", c))
@@ -203,6 +241,9 @@ var onceBubbleProp = vp.Register(vp.Prop[OnceCase]{
 		}
 		for k := 0; k < c.K; k++ {
 			acts = append(acts, Act{Kind: "open", Arg: k})
+		}
+		for j := 0; j < rapid.IntRange(0, 2).Draw(t, "fills"); j++ {
+			acts = append(acts, Act{Kind: "fill", Arg: rapid.SampledFrom([]int{1, 10, 63, 64, 65, 130, 257}).Draw(t, "fill")})
 		}
 		c.Script = rapid.Permutation(acts).Draw(t, "script")
 		return c
